@@ -139,6 +139,16 @@ def worker_payload_hook(interp, fi, args, kwargs, node, self_cls):
     S(ex, 'RCtx', child, 'killed', z3.BoolVal(False))
     ex.ghost['cli_handed'] = z3.BoolVal(True)
     ex.ghost['new_child_key'] = child.key
+    # allocation: the new child is a fresh object; the arbitrary child c0, if it is this one, cannot have been registered before
+    env = ex.ghost.get('__srvenv__')
+    if env is not None:
+        c0 = ex.ghost['cnt_track'][0]
+        a = ex.heap[env['self'].addr].attrs
+        ch = a.get('children')
+        fresh = z3.Not(ex.ghost['was_child'])
+        if isinstance(ch, VRef) and isinstance(ex.heap[ch.addr], HSymList):
+            fresh = z3.And(fresh, cnt_f(c0, ex.heap[ch.addr].seq) == 0)
+        ex.assume(z3.Implies(Val.vakey(c0) == child.key, fresh))
     return child
 
 
@@ -169,6 +179,7 @@ def server_state(ex, env):
     env['self'] = self_v
     env['lsock'] = lsock
     ex.ghost['killed_pids'] = z3.K(Val, z3.BoolVal(False))
+    ex.ghost['was_child'] = z3.BoolVal(False)
     ex.ghost['cur_cli'] = None
     ex.ghost['terminate_requested'] = z3.BoolVal(False)
     ex.ghost['__attr_kinds__'] = {'children': 'symlist', 'contexts': ('symdict', ('abs', 'RCtx'))}
@@ -179,6 +190,7 @@ def server_state(ex, env):
     c0 = ex.fresh('c0', Val)
     ex.ghost['cnt_track'] = [c0]
     env['c0'] = VSym(c0, hint=('abs', 'RCtx'))
+    ex.assume(c0 == Val.v_abs(z3.IntVal(smt.cls_code('RCtx')), Val.vakey(c0)))        # c0 ranges over child handles
     return self_v
 
 
@@ -223,9 +235,52 @@ def chain_model(ex, a, k):
     p0, q0, k1, k2 = env['p0'].e, env['q0'].t, env['k1'].e, env['k2'].e
     ex.assume(z3.Implies(z3.And(p0 >= 0, p0 < z3.Length(s)), z3.And(k1 == p0, R[k1] == s[p0])))
     ex.assume(z3.Implies(z3.Select(h.dom, q0), z3.And(k2 >= z3.Length(s), k2 < z3.Length(R), R[k2] == z3.Select(h.map, q0), nvals >= 1)))
+    # the arbitrary child handle c0, if it is in the list, sits at the arbitrary position p0 (both are Skolem constants: for any
+    # position p take c0 := s[p])
+    c0 = ex.ghost['cnt_track'][0]
+    I.fact_part(c0, s)
+    ex.assume(z3.Implies(cnt_f(c0, s) > 0, z3.And(p0 >= 0, p0 < z3.Length(s), s[p0] == c0)))
     ex.ghost['chain_children'] = s
     ex.ghost['chain_ctx_dom'] = ctxs.dom          # coverage is stated against the server's own table
     ex.ghost['chain_ctx_map'] = ctxs.map
     res = ex.alloc(HSymList(R))
     ex.heap[res.addr].elem_hint = ('abs', 'RCtx')
     return res
+
+
+def child_registered_now(ex, env):
+    a = ex.heap[env['self'].addr].attrs
+    ch = a.get('children')
+    if not isinstance(ch, VRef) or not isinstance(ex.heap[ch.addr], HSymList):
+        return z3.BoolVal(False)
+    c0 = ex.ghost['cnt_track'][0]
+    seq = ex.heap[ch.addr].seq
+    ex.interp.fact_part(c0, seq)
+    return cnt_f(c0, seq) > 0
+
+
+def signal_safe_point(interp, st, fr):
+    """C12.L2/L4: the SIGTERM handler (which signals exactly the members of self.children) may run at any statement boundary of
+    run(): a child that has been registered and has not had terminate() invoked on it yet must still be in self.children"""
+    ex = interp.ex
+    env = ex.ghost.get('__srvenv__')
+    if env is None or fr.fi.qualname != RS + '.run':
+        return
+    c0 = ex.ghost['cnt_track'][0]
+    now = child_registered_now(ex, env)
+    term = F(ex, 'RCtx', VAbs('RCtx', Val.vakey(c0)), 'terminated')
+    ex.oblige('at-all-points', z3.Implies(z3.And(ex.ghost['was_child'], z3.Not(term)), now),
+              'a child registered in self.children stays there until terminate() has been invoked on it (the SIGTERM handler signals '
+              'only the members of self.children and can run at any statement boundary)', st, key=('sigsafe', st.lineno))
+    ex.ghost['was_child'] = z3.Or(ex.ghost['was_child'], now)
+
+
+def was_child_inv(c):
+    ex = c.ex
+    env = ex.ghost['__srvenv__']
+    c0 = ex.ghost['cnt_track'][0]
+    term = F(ex, 'RCtx', VAbs('RCtx', Val.vakey(c0)), 'terminated')
+    return z3.Implies(z3.And(ex.ghost['was_child'], z3.Not(term)), child_registered_now(ex, env))
+
+
+was_child_inv.__doc__ = 'c0 was registered in self.children and terminate() was not yet invoked on it ==> it is still in self.children'
